@@ -210,7 +210,7 @@ def _typed(sig, v):
 def bounded(tier, seed):
     rnd = random.Random(seed * 811 + 29)
     n = 0
-    for s in range(200 if tier == 'thorough' else 50):
+    for s in range(2500 if tier == 'thorough' else 50):
         n += 1
         f = history(rnd, 30)
         if f:
